@@ -476,10 +476,17 @@ def parameters(rep, idx, P, sig, icls):
                 ok = False
                 import itertools
                 matched = None
+                # reflexivity: when `other is self`, the class test and every field comparison hold (the parameters are stored as ints,
+                # frozensets, shapes: values equal to themselves), so an identity fast path adds nothing
+                refl = None
+                for txt in ("other is self", "self is other"):
+                    ident = c.eng.cond(c.norm(c.parse(txt)))
+                    imp = dl.f_or(dl.f_not(ident), dl.f_and(c.eng.cond(isinst), *[x_ for a_ in alts for x_ in a_]))
+                    refl = imp if refl is None else dl.f_and(refl, imp)
                 for choice in itertools.product(*[range(len(a_)) for a_ in alts]) if alts else [()]:
                     combo = [alts[i_][k_] for i_, k_ in enumerate(choice)]
                     want = dl.f_and(c.eng.cond(isinst), *combo)
-                    if dl.equivalent(c.eng, found, want)[0]:
+                    if dl.equivalent(c.eng, found, want, assume=refl)[0]:
                         ok = True
                         matched = choice
                         break
